@@ -380,6 +380,7 @@ def r5(ctx):
     apifw.check_forwarder(ctx, "C14.R5", "doc_close", "CloseRequest", ["close(req.doc_id)"], "Ok(CloseResponse)")
     apifw.check_forwarder(ctx, "C14.R5", "doc_status", "StatusRequest", ["get_state(req.doc_id)"], "Ok(StatusResponse(result-of-get_state))")
     apifw.check_client(ctx, "C14.R5", "api::Doc::close", "CloseRequest")
+    apifw.check_close_idempotent(ctx, "C14.R5")
     apifw.check_client(ctx, "C14.R5", "api::Doc::status", "StatusRequest")
     apifw.check_client(ctx, "C14.R5", "api::DocsApi::open", "OpenRequest", doc_from="arg.id")
     ctx.floor("C14.R5", 4)
@@ -506,7 +507,22 @@ def r9(ctx):
     engine believes a document joined only if its open succeeded"""
     from . import livefw
     livefw.check_join_leave(ctx, "C14.R9")
-    ctx.floor("C14.R9", 5)
+    # ... and nothing else makes the engine believe so: a request of a peer for a document the engine has not joined is declined
+    # (NotFound) and leaves the joined set alone (the unknown-document row of C11.R1)
+    from . import C11
+    sub = type(ctx)(ctx.prop, ctx.tier, ctx.facts, ctx.cfg)
+    C11.r1(sub)
+    for o in sub.obligations:
+        if "unknown-document" not in o["key"]:
+            continue
+        o = dict(o)
+        o["key"] = o["key"].replace("C11.R1", "C14.R9")
+        o["rule"] = "C14.R9"
+        ctx.obligations.append(o)
+        if o["status"] != "holds":
+            ctx.violations.append(o)
+    ctx.analysed_bodies |= sub.analysed_bodies
+    ctx.floor("C14.R9", 6)
 
 
 def r10(ctx):
